@@ -12,6 +12,14 @@ CHECKS = {
    text="Bounded symbolic execution of the MIR of every function in modular_arithmetic.rs: for all a,b in [0,p) of the three real primes each result equals the documented Circom semantics, is canonical, undefined cases are Err, and no panic or unbounded big-integer work is reachable (also for out-of-field operands < 2^256). Solver verdict over all operands, not sampling.",
    note=TB + "mod_inverse/modpow/bitwise ops on Z are shared uninterpreted symbols in code and oracle. Quick tier: complement_256 for operands < 2^16 plus boundary classes; thorough: every bit length, plus small primes.",
    ref="DESIGN.md §3 C16"),
+ 'C07': dict(
+   text="Two engines. Kani (CBMC) over the compiled Degree/DegreeRange code: all 20 infix and 3 prefix transfer functions and their end-point lifting to ranges are sound w.r.t. the least sound degree bound and monotone, Ord is the rank order, predicates/inf/contains are right - the whole finite space in one query each. mirsym over the MIR of the private opcode dispatch (ExpressionInfixOpcode/PrefixOpcode::propagate_degrees) with symbolic opcode and ranges: unknown operand => no claim, otherwise claimed end >= least sound bound for every operand degree in the ranges.",
+   note=TB + "Kani/CBMC trusted for the kernel harnesses. Reference = least sound bound (+,-: max; *: sum capped; / by constant keeps the degree; unary -: identity; anything else constant iff all operands constant). Outside: that an IR expression denotes the polynomial assumed; fixpoint convergence; IR node rules other than the opcode dispatch unless listed in the evidence.",
+   ref="DESIGN.md §3 C07", engine='kani+mirsym', technique="Kani/CBMC bounded model checking of the compiled enum kernels + symbolic execution of rustc MIR with z3; counterexamples replayed natively"),
+ 'C06': dict(
+   text="Symbolic execution of the MIR of the operator evaluation table (ExpressionInfixOpcode/PrefixOpcode::propagate_values, down into circom_algebra) for every opcode, every operand kind (field element, boolean, unknown) and all operand values in the field of each of the three curves: any value produced equals Circom's field semantics (independent oracle), ill-typed or unknown operands and undefined operations produce no value, no panic is reachable.",
+   note=TB + "Literals assumed canonical (< p). mod_inverse/modpow/bitwise ops are shared uninterpreted symbols. Outside: function calls and arrays (not propagated), phi completeness (C14), name uniqueness (C10); IR node rules only where listed in the evidence.",
+   ref="DESIGN.md §3 C06"),
  'C05': dict(
    text="Symbolic execution of the MIR of parser_logic::preprocess on strings of n symbolic chars ranging over every Unicode scalar value (quick: n<=6, plus all-ASCII n<=8; thorough n<=8 / n<=10), compared with a co-executed textbook comment lexer: Ok iff every block comment is closed, output byte-for-byte equal to the input with comments blanked, Err iff unclosed.",
    note=TB + "Longer texts are outside the claim. What the grammar does with the stripped text is outside the claim. UnclosedCommentError::into_report is stubbed (argument captured).",
@@ -39,7 +47,8 @@ m = {
  "version": 1, "setup_cmd": "./setup.sh",
  "hooks": {"guard": "cargo feature `verif` of crate circomspect-parser", "enable": "cargo build -p circomspect-parser --features verif (done by /verif/replay/vr_parser through its path dependency)",
            "baseline_off_cmd": "cd /repo && cargo test --workspace --no-fail-fast --offline", "source_commits": ["723e96b"], "add_only": True},
- "engines": [{"name": "mirsym", "path": "mirsym/", "serves_properties": [p for p in claimed if CHECKS[p].get('engine', 'mirsym') == 'mirsym'],
+ "engines": [{"name": "kani", "path": "kani/", "serves_properties": ["C07"], "kind_free_text": "Kani 0.68 / CBMC 6.11 harness crate with a path dependency on /repo (rebuilt from the working tree)"},
+             {"name": "mirsym", "path": "mirsym/", "serves_properties": [p for p in claimed if 'mirsym' in CHECKS[p].get('engine', 'mirsym')],
               "kind_free_text": "own symbolic executor over the rustc MIR of /repo's working tree (regenerated on every run), z3 back end, native replay of counterexamples"}],
  "checks": checks,
  "not_applicable": [{"property_id": p['id'], "reason": NA_REASON.get(p['id'], "no solver-based check built yet for this property (see DESIGN.md); not claimed")} for p in props if p['id'] not in CHECKS],
